@@ -255,6 +255,11 @@ func (e *c34Env) boundaryPayloads() []c34Payload {
 		// top-level names that sort before ".PKGINFO" / before any letter (member and manifest order must not depend on them)
 		{"low-sorting-names", []wire.Content{c34File(j("bin/tool"), "/+extras/tool"), c34File(j("etc/app.conf"), "/-dash"), c34File(j("share/doc/README"), "/.BUILDINFO"),
 			c34File(j("share/doc/LICENSE"), "/.aaa/file"), {Dst: "/!bang/", Type: "dir"}, c34File(j("bin/tool"), "/usr/bin/tool")}},
+		// destinations written relative, climbing above the root, or unclean: they denote the cleaned absolute path,
+		// and share parents with ordinary entries
+		{"unclean-destinations", []wire.Content{c34File(j("bin/tool"), "/etc/demo/tool"), {Src: "/etc/demo/tool", Dst: "../etc/demo/link", Type: "symlink"},
+			{Dst: "../../var/lib/demo", Type: "dir"}, c34File(j("etc/app.conf"), "/var/lib/demo/x/../app.conf"), c34File(j("share/doc/README"), "usr//share/./doc/README"),
+			{Src: j("tree"), Dst: "../usr/share/demo-tree", Type: "tree"}}},
 		{"long-names", []wire.Content{c34File(j("bin/tool"), "/opt/long/"+strings.Repeat("d", 60)+"/"+strings.Repeat("n", 120)+".txt"),
 			c34File(j("etc/app.conf"), "/opt/long/"+strings.Repeat("e", 90)+"/"+strings.Repeat("f", 90)+"/"+strings.Repeat("g", 110)),
 			{Src: "/" + strings.Repeat("t", 130), Dst: "/opt/long/" + strings.Repeat("l", 101), Type: "symlink"}}},
@@ -642,7 +647,7 @@ type c34Result struct {
 	Checks                  []string // driver ops that were evaluated
 	GoChecks                int
 	SegCompared, SegSkip    int
-	TarCompared, TarSkipped int   // tar streams sent through the byte-level tar model / left out (not expressible or too large)
+	TarCompared, TarSkipped int // tar streams sent through the byte-level tar model / left out (not expressible or too large)
 	TarBy                   map[string]int
 	Err                     error // harness or driver trouble: never silently dropped
 	Notes                   []string
@@ -1874,7 +1879,7 @@ func c34Families(c *Ctx, prop string, seg *c34Seg) (*c34Env, error) {
 			firstErr = err
 		}
 	}
-	keep(e.runFamily(prop, "boundary", "boundary payloads: empty payload, only directories, only symlinks, empty files, single-character directories, unicode names, setuid/owner/mtime overrides, tree+globs, rpm-only types, names longer than 100 and 255 bytes, source files whose mtime has a sub-second part, one file of exactly 1/511/512/513/1023/1024/1025/4095/4096/4097 bytes, all of them together, 300 KiB random, 300 KiB zeros, both (thorough: 3 MiB random, 3 MiB zeros + 1 MiB+1), many small files (40 quick, 200 thorough) x 5 formats x compression (deb: every setting; rpm quick: three settings rotating per payload, thorough: every setting). The payloads fractional-source-mtime, setuid-owner-mtime, tree-and-globs, empty, only-dirs are also built with info.MTime unset (thorough: every payload). A build error is a finding. Checked: "+what+c34Common,
+	keep(e.runFamily(prop, "boundary", "boundary payloads: empty payload, only directories, only symlinks, empty files, single-character directories, unicode names, setuid/owner/mtime overrides, tree+globs, destinations written relative / climbing above the root / unclean, rpm-only types, names longer than 100 and 255 bytes, source files whose mtime has a sub-second part, one file of exactly 1/511/512/513/1023/1024/1025/4095/4096/4097 bytes, all of them together, 300 KiB random, 300 KiB zeros, both (thorough: 3 MiB random, 3 MiB zeros + 1 MiB+1), many small files (40 quick, 200 thorough) x 5 formats x compression (deb: every setting; rpm quick: three settings rotating per payload, thorough: every setting). The payloads fractional-source-mtime, setuid-owner-mtime, tree-and-globs, empty, only-dirs are also built with info.MTime unset (thorough: every payload). A build error is a finding. Checked: "+what+c34Common,
 		e.boundaryCases(), seg))
 	keep(e.runFamily(prop, "compression", "every compression setting (deb: \"\", gzip, xz, zstd, none; rpm: \"\", gzip, gzip:1, gzip:9, gzip:-1, xz, lzma, zstd, zstd:1, zstd:19, zstd:fastest) x payload {mixed (mtime set and unset), empty, 300 KiB random + 300 KiB zeros, all exact sizes}. A build error for a setting the schema accepts is a finding. Checked: "+what+c34Common,
 		e.compressionCases(c.R.Fork("c34-compression")), seg))
